@@ -94,13 +94,25 @@ func (w *World) fakeSig(salt string, i int) []byte {
 // decodable invalid token of the sibling type.
 func siblingKind(mt, k string) string {
 	switch k {
-	case "valid", "undecodable", "badlen":
+	case "valid", "undecodable", "badlen", "swap":
 		return k
 	}
 	if mt == "shares" { // built as keys
 		return "wrong"
 	}
 	return "otherId"
+}
+
+// swapPartner returns the position of the partner entry of entry i for kind "swap": the next
+// entry (cyclically) with another identity; -1 if there is none.
+func swapPartner(es []Entry, i int) int {
+	for d := 1; d < len(es); d++ {
+		j := (i + d) % len(es)
+		if es[j].R != es[i].R {
+			return j
+		}
+	}
+	return -1
 }
 
 // BuildProto builds the p2pmsg message of the case (of the sibling type if typeOk is false).
@@ -135,13 +147,21 @@ func (w *World) BuildProto(cc *Concrete) p2pmsg.Message {
 	}
 	if build == "shares" {
 		out := &p2pmsg.DecryptionKeyShares{InstanceId: inst, Eon: eon, KeyperIndex: snd}
-		for _, e := range m.Entries {
+		for i, e := range m.Entries {
 			id := w.identOf(cc, e.R)
 			k := e.K
 			if !m.TypeOk {
 				k = siblingKind(m.Mt, k)
 			}
-			out.Shares = append(out.Shares, &p2pmsg.KeyShare{IdentityPreimage: id, Share: w.ShareBytes(snd, id, k)})
+			tokenID := id
+			if k == "swap" { // the sender's genuine share of the partner entry's identity
+				if j := swapPartner(m.Entries, i); j >= 0 {
+					k, tokenID = "valid", w.identOf(cc, m.Entries[j].R)
+				} else {
+					k = "otherId"
+				}
+			}
+			out.Shares = append(out.Shares, &p2pmsg.KeyShare{IdentityPreimage: id, Share: w.ShareBytes(snd, tokenID, k)})
 		}
 		switch m.Extra {
 		case "gnosis":
@@ -154,13 +174,21 @@ func (w *World) BuildProto(cc *Concrete) p2pmsg.Message {
 		return out
 	}
 	out := &p2pmsg.DecryptionKeys{InstanceId: inst, Eon: eon}
-	for _, e := range m.Entries {
+	for i, e := range m.Entries {
 		id := w.identOf(cc, e.R)
 		k := e.K
 		if !m.TypeOk {
 			k = siblingKind(m.Mt, k)
 		}
-		out.Keys = append(out.Keys, &p2pmsg.Key{IdentityPreimage: id, Key: w.KeyBytes(id, k)})
+		tokenID := id
+		if k == "swap" { // the genuine key of the partner entry's identity
+			if j := swapPartner(m.Entries, i); j >= 0 {
+				k, tokenID = "valid", w.identOf(cc, m.Entries[j].R)
+			} else {
+				k = "wrong"
+			}
+		}
+		out.Keys = append(out.Keys, &p2pmsg.Key{IdentityPreimage: id, Key: w.KeyBytes(tokenID, k)})
 	}
 	switch m.Extra {
 	case "gnosis":
